@@ -119,6 +119,26 @@ def known_locals():
     return _LOCALS
 
 
+_DEFS = None
+
+
+def known_defs():
+    """Frozen table {module::qualname: [(local name, definition signatures)]} of the reference tree: how each local of a function is
+    defined, up to the names of locals.  Used only by the vocabulary-restoration pass of canon.py, which gives a renamed local its
+    reference name back (a consistent renaming is an equivalence whatever the table says).  No verdict depends on the table."""
+    global _DEFS
+    if _DEFS is None:
+        import json
+        p = os.path.join(os.path.dirname(os.path.abspath(__file__)), 'known_defs.json')
+        try:
+            with open(p) as fh:
+                raw = json.load(fh)
+            _DEFS = {k: [(nm, tuple(sg)) for nm, sg in v] for k, v in raw.items()}
+        except (OSError, ValueError):
+            _DEFS = {}
+    return _DEFS
+
+
 def bound_names(fn):
     """Every name bound anywhere inside a function (parameters, stores, comprehension targets, nested defs, imports)."""
     out = set()
@@ -146,7 +166,7 @@ class _CanonCache:
         self.dir = os.environ.get('MPV_CACHE', os.path.join(os.path.dirname(os.path.dirname(os.path.abspath(__file__))), '.cache'))
         try:
             h = hashlib.sha1()
-            for f in ('canon.py', 'known_funcs.txt', 'known_locals.txt'):
+            for f in ('canon.py', 'known_funcs.txt', 'known_locals.txt', 'known_defs.json'):
                 with open(os.path.join(os.path.dirname(os.path.abspath(__file__)), f), 'rb') as fh:
                     h.update(fh.read())
             ver = h.hexdigest()[:12]
@@ -259,6 +279,7 @@ class Model:
         cache = _CanonCache(m)
         known = known_functions()
         locs = known_locals()
+        rdefs = known_defs()
 
         # helpers: small functions that are not part of the vocabulary the rules were written against
         helpers = {}
@@ -306,6 +327,7 @@ class Model:
                 cls = self.cls[-1] if (self.cls and self.depth == 0) else None
                 if self.depth == 0:
                     self.vocab = locs.get(f'{m}::{cls + "." if cls else ""}{n.name}')
+                refsigs = rdefs.get(f'{m}::{cls + "." if cls else ""}{n.name}') if self.depth == 0 else None
                 vocab = self.vocab
                 vkey = ','.join(sorted(vocab)) if vocab is not None else '-'
                 key = hashlib.sha1(f'{int(proto)}|{n.col_offset}|{hkey}|{vkey}|{text}'.encode()).hexdigest()
@@ -321,7 +343,7 @@ class Model:
                     if helpers:
                         n = copy.deepcopy(n)
                         canon.h1_inline(n, {k: h for k, h in helpers.items() if h.node.name != n.name}, cls)
-                    out = canon.canon_function(n, protocol=proto, vocab=vocab)
+                    out = canon.canon_function(n, protocol=proto, vocab=vocab, refsigs=refsigs)
                 except RecursionError:  # pragma: no cover
                     out = n
                 cache.put(key, n.lineno, out)
